@@ -1240,8 +1240,25 @@ class CSemantics:
         to int type before performing the operation.
         """
         if expr.typ.is_promotable:
-            expr = self.coerce(expr, self.int_type)
+            expr = self.coerce(expr, self.promoted_type(expr.typ))
         return expr
+
+    def promoted_type(self, typ):
+        """Determine the type after integer promotion.
+
+        A small integer type (and an enum) becomes int if int can
+        represent all its values, unsigned int otherwise.
+        """
+        if typ.is_promotable:
+            if not typ.is_signed and self.context.sizeof(
+                typ
+            ) >= self.context.sizeof(self.int_type):
+                typ = self.get_type(["unsigned", "int"])
+            else:
+                typ = self.int_type
+        elif isinstance(typ, types.EnumType):
+            typ = self.int_type
+        return typ
 
     def equal_types(self, typ1, typ2):
         """Compare two types for equality."""
@@ -1289,7 +1306,41 @@ class CSemantics:
         The common type is a type they can both be cast to.
         """
 
+        if typ1.is_integer_or_enum and typ2.is_integer_or_enum:
+            return self.usual_arithmetic_conversions(typ1, typ2)
         return max([typ1, typ2], key=lambda t: self._get_rank(t, location))
+
+    def usual_arithmetic_conversions(self, typ1, typ2):
+        """Common type of two integer types (C99 6.3.1.8)."""
+        typ1 = self.promoted_type(typ1)
+        typ2 = self.promoted_type(typ2)
+        rank1 = self.basic_ranks[typ1.type_id] // 10
+        rank2 = self.basic_ranks[typ2.type_id] // 10
+        if typ1.type_id == typ2.type_id:
+            common = typ1
+        elif typ1.is_signed == typ2.is_signed:
+            common = typ1 if rank1 > rank2 else typ2
+        else:
+            if typ1.is_signed:
+                signed, unsigned = typ1, typ2
+                signed_rank, unsigned_rank = rank1, rank2
+            else:
+                signed, unsigned = typ2, typ1
+                signed_rank, unsigned_rank = rank2, rank1
+            if unsigned_rank >= signed_rank:
+                common = unsigned
+            elif self.context.sizeof(signed) > self.context.sizeof(unsigned):
+                # The signed type can represent all unsigned values.
+                common = signed
+            else:
+                # The unsigned type corresponding to the signed type:
+                unsigned_types = {
+                    types.BasicType.INT: types.BasicType.UINT,
+                    types.BasicType.LONG: types.BasicType.ULONG,
+                    types.BasicType.LONGLONG: types.BasicType.ULONGLONG,
+                }
+                common = types.BasicType(unsigned_types[signed.type_id])
+        return common
 
     basic_ranks = {
         types.BasicType.LONGDOUBLE: 110,
